@@ -167,10 +167,21 @@ pub fn run_batch(
     watchdog: Duration,
 ) -> Vec<(u64, CaseOutcome)> {
     let exe = std::env::current_exe().expect("current_exe");
+    run_batch_with(&exe, make_args, lo, hi, watchdog)
+}
+
+/// Same as `run_batch` with an explicit child executable (e.g. the debug-profile build).
+pub fn run_batch_with(
+    exe: &std::path::Path,
+    make_args: &dyn Fn(u64, u64) -> Vec<String>,
+    lo: u64,
+    hi: u64,
+    watchdog: Duration,
+) -> Vec<(u64, CaseOutcome)> {
     let mut results: Vec<(u64, CaseOutcome)> = Vec::with_capacity((hi - lo) as usize);
     let mut next = lo;
     while next < hi {
-        let mut child = Command::new(&exe)
+        let mut child = Command::new(exe)
             .args(make_args(next, hi))
             .stdin(Stdio::null())
             .stdout(Stdio::piped())
